@@ -59,7 +59,7 @@ ASSUMPTIONS = [
 
 PREFIXES = (REPO.rstrip('/') + '/ombott/', echo.__file__.rsplit('/', 1)[0] + '/')
 KINDS = ['echo_get', 'echo_post', 'echo_head', 'upload', 'raise_err', 'raise_resp', 'teapot', 'crash', 'gen',
-         'notfound', 'notallowed', 'json404', 'badchunk', 'chunked_ok', 'big', 'badpath', 'echo_put']
+         'notfound', 'notallowed', 'json404', 'badchunk', 'chunked_ok', 'big', 'badpath', 'echo_put', 'hookcrash']
 _MARK = re.compile(r'Z\d+z')
 
 
@@ -127,9 +127,11 @@ def environ_of(spec):
         kw = {'content_length': len(body)}
     elif kind == 'badpath':
         path = '/echo/\xff' + m
+    elif kind == 'hookcrash':
+        path = '/echo/' + m
     else:
         raise HarnessError(f'unknown kind {kind}')
-    env = make_environ(method, path, f'm={m}&x=1', headers, stream=io.BytesIO(body or b''), **kw)
+    env = make_environ(method, path, f'm={m}&x=1' + ('&hc=1' if kind == 'hookcrash' else ''), headers, stream=io.BytesIO(body or b''), **kw)
     env['sim.m'] = m
     return env
 
@@ -180,6 +182,36 @@ def served_alone(spec, cfg, gran):
         if len(_ALONE) > 3000:
             _ALONE.clear()
         _ALONE[k] = got
+    return got
+
+
+_PLAIN = {}
+
+
+def restart_reference(spec, cfg):
+    """The same spec on a fresh application in a fresh, untraced thread (used by C09)."""
+    import threading
+    k = digest([spec, cfg])
+    got = _PLAIN.get(k)
+    if got is None:
+        app = new_app(cfg)
+        out = Outcome()
+        err = []
+
+        def body():
+            try:
+                serve(app, spec, out)
+            except BaseException as e:   # noqa
+                err.append(e)
+        t = threading.Thread(target=body)
+        t.start()
+        t.join(60)
+        if err or t.is_alive():
+            raise HarnessError(f'restart reference failed: {err}')
+        got = (canon_resp(out.resp), out.notes, 0)
+        if len(_PLAIN) > 20000:
+            _PLAIN.clear()
+        _PLAIN[k] = got
     return got
 
 
